@@ -412,7 +412,7 @@ class SuccessionDiagram:
             f"State order: {', '.join(var_ordering)}\n\n"
             "Attractors in diagram:\n\n"
         )
-        for node in self.node_ids():
+        for node in self.expanded_ids():
             try:
                 attrs = self.node_attractor_seeds(node, compute=False)
             except KeyError:
@@ -1232,7 +1232,7 @@ class SuccessionDiagram:
         Expand the succession diagram and search for attractors using default methods.
         """
         self.expand_block()
-        for node_id in self.node_ids():
+        for node_id in list(self.expanded_ids()):
             self.node_attractor_seeds(node_id, compute=True)
 
     def expand_scc(self, find_motif_avoidant_attractors: bool = True) -> bool:
